@@ -75,6 +75,10 @@ func newNamer() *namer {
 		sanitized := n.sanitize(name)
 		n.unique[sanitized] = 0
 	}
+	// The module-scope names the writer emits verbatim (sampler heaps) are taken too.
+	for name := range writerGlobals {
+		n.unique[n.sanitize(name)] = 0
+	}
 
 	return n
 }
